@@ -297,6 +297,13 @@ class OpsMixin(object):
                 # Mapping mixin methods: derived from iteration and item access, as collections.abc.Mapping derives them
                 return PyObjV(_MappingView(base.obj, attr))
             self.err(node, "model object %r has no attribute %s" % (base.obj, attr))
+        if type(base).__name__ == "SetAccV" and not base.adds and attr in (
+                "issubset", "issuperset", "isdisjoint", "intersection", "union", "difference", "symmetric_difference", "copy"):
+            # a set only ever filled outside symbolic loops: an ordinary concrete set (non-mutating methods)
+            seen = {}
+            for c in base.concrete:
+                seen.setdefault(c.key(), c)
+            return BoundBuiltin(ListV(list(seen.values()), "set"), attr)
         if isinstance(base, Phi):
             a = self.with_path(base.cond, True, lambda: self.getattr(base.a, attr, node))
             b = self.with_path(base.cond, False, lambda: self.getattr(base.b, attr, node))
@@ -451,6 +458,10 @@ class OpsMixin(object):
             k = idx.key()
             if k in base.items:
                 return base.items[k][1]
+            if getattr(base, "counter", False):
+                from .symeval_ext import concrete_key as _ck
+                if _ck(idx) and all(_ck(kk) for kk, _ in base.items.values()):
+                    return Num(ep.const(0))                       # Counter.__missing__: 0, nothing stored
             if getattr(base, "default_factory", None) is not None and isinstance(idx, (Const, Num)) \
                     and all(isinstance(kk, (Const, Num)) for kk, _ in base.items.values()):
                 v = self.call(base.default_factory, [], {}, node)      # collections.defaultdict.__missing__
